@@ -83,7 +83,6 @@ pub fn days_from_civil(y: i64, m: u32, d: u32) -> i64 {
 }
 
 /// Inverse of `days_from_civil` (Howard Hinnant's `civil_from_days`).
-#[allow(dead_code)]
 pub fn civil_from_days(z: i64) -> (i64, u32, u32) {
     let z = z + 719_468;
     let era = if z >= 0 { z } else { z - 146_096 } / 146_097;
